@@ -18,12 +18,13 @@ import (
 )
 
 type snode struct {
-	kind byte // 'f' field, 't' __typename, 'i' inline fragment, 's' spread
-	id   int
-	key  string
-	name string // field name / fragment name
-	tc   string // inline: type condition ("" = none)
-	sub  []*snode
+	kind    byte // 'f' field, 't' __typename, 'i' inline fragment, 's' spread
+	id      int
+	key     string
+	name    string // field name / fragment name
+	tc      string // inline: type condition ("" = none)
+	missing bool   // a field name the parent type does not have
+	sub     []*snode
 }
 
 type sfrag struct {
@@ -63,8 +64,8 @@ func (g *sdocGen) selset(parent string, depth int) []*snode {
 		x := g.r.Intn(24)
 		switch {
 		case pt.Kind != "union" && x < 11:
-			if !g.tidy && g.r.Chance(1, 30) {
-				out = append(out, &snode{kind: 'f', key: g.fresh("k"), name: "nofield"})
+			if !g.tidy && g.r.Chance(1, 15) {
+				out = append(out, &snode{kind: 'f', key: g.fresh("k"), name: missingField(g.r, pt), missing: true})
 				continue
 			}
 			f := rng.Pick(g.r, pt.Fields)
@@ -116,7 +117,7 @@ func (g *sdocGen) selset(parent string, depth int) []*snode {
 	if g.r.Chance(1, 4) {
 		var fields []*snode
 		for _, n := range out {
-			if n.kind == 'f' && n.name != "nofield" {
+			if n.kind == 'f' && !n.missing {
 				fields = append(fields, n)
 			}
 		}
